@@ -937,7 +937,7 @@ def fixed_specs():
                                                                   dict(name='y', task=T(task_dep=['b'], targets=[4]))]),
                               dict(kind='plain', name='c', task=T(setup=['s'], file_dep=[2], ret=('str', 1))),
                               dict(kind='plain', name='b', task=T(file_dep=[0, 1], uptodate=[['config', 1]])),
-                              dict(kind='plain', name='s', task=T(uptodate=[['bool', True]])),
+                              dict(kind='plain', name='s', task=T(file_dep=[3], uptodate=[['bool', True]])),
                               dict(kind='plain', name='d', task=T())],
                     files={'0': 0, '1': 1, '2': 2, '3': 3, '4': 0}, pre=dict(fail=list(fail), ck='md5'), steps=steps)
 
